@@ -1,7 +1,566 @@
-//! C10 — harness not built yet.
+//! C10 — results do not depend on what a tokenizer or result list processed before.
+//!
+//! Random operation sequences {set_mode, set_subset, analyse (short / long / empty / oversized / failing late), new list,
+//! collect into a reused list, split_into, lookup} on one StatefulTokenizer, followed by a probe (analyse + collect),
+//! compared field by field with a freshly created tokenizer of the same mode and field request; the Coq model
+//! (Model/TokState.v) replays the same operations over an environment recorded from fresh tokenizers.
+use crate::c09::*;
 use crate::common::*;
+use serde_json::{json, Value};
+use std::rc::Rc;
+use sudachi::analysis::node::ResultNode;
+use sudachi::analysis::lattice::Lattice;
+use sudachi::analysis::stateful_tokenizer::StatefulTokenizer;
+use sudachi::analysis::stateless_tokenizer::DictionaryAccess;
+use sudachi::config::Config;
+use sudachi::dic::dictionary::JapaneseDictionary;
+use sudachi::dic::grammar::Grammar;
+use sudachi::dic::lexicon_set::LexiconSet;
+use sudachi::input_text::{InputBuffer, InputTextIndex};
+use sudachi::plugin::input_text::InputTextPlugin;
+use sudachi::plugin::oov::OovProviderPlugin;
+use sudachi::plugin::path_rewrite::PathRewritePlugin;
+use sudachi::prelude::*;
 
-pub fn run(_args: &Args) {
-    eprintln!("no harness for C10 yet");
-    std::process::exit(2);
+pub struct FailingRewrite;
+impl PathRewritePlugin for FailingRewrite {
+    fn set_up(&mut self, _s: &serde_json::Value, _c: &Config, _g: &Grammar) -> SudachiResult<()> {
+        Ok(())
+    }
+    fn rewrite(&self, text: &InputBuffer, path: Vec<ResultNode>, _l: &Lattice) -> SudachiResult<Vec<ResultNode>> {
+        if text.current().contains('!') {
+            Err(SudachiError::InvalidRange(0, 0))
+        } else {
+            Ok(path)
+        }
+    }
+}
+pub struct WrapDict {
+    pub inner: JapaneseDictionary,
+    pub prw: Vec<Box<dyn PathRewritePlugin + Sync + Send>>,
+}
+impl DictionaryAccess for WrapDict {
+    fn grammar(&self) -> &Grammar<'_> {
+        self.inner.grammar()
+    }
+    fn lexicon(&self) -> &LexiconSet<'_> {
+        self.inner.lexicon()
+    }
+    fn input_text_plugins(&self) -> &[Box<dyn InputTextPlugin + Sync + Send>] {
+        self.inner.input_text_plugins()
+    }
+    fn oov_provider_plugins(&self) -> &[Box<dyn OovProviderPlugin + Sync + Send>] {
+        self.inner.oov_provider_plugins()
+    }
+    fn path_rewrite_plugins(&self) -> &[Box<dyn PathRewritePlugin + Sync + Send>] {
+        &self.prw
+    }
+}
+
+use sudachi::dic::subset::InfoSubset;
+type WD = Rc<WrapDict>;
+
+#[derive(Clone, Debug)]
+enum Op {
+    SetMode(u8),
+    SetSubset(u32),
+    Analyse(usize), // index into the text pool
+    NewList,
+    Collect(usize),
+    SplitInto(u8, usize, usize, usize),
+    Lookup(usize, usize, u32),
+}
+
+fn mode_of(m: u8) -> Mode {
+    match m {
+        0 => Mode::A,
+        1 => Mode::B,
+        _ => Mode::C,
+    }
+}
+fn cmode(m: u8) -> &'static str {
+    match m {
+        0 => "MA",
+        1 => "MB",
+        _ => "MC",
+    }
+}
+
+const BIG: usize = 16384; // "あ" x 16384 = 49152 bytes > MAX_LENGTH
+
+#[derive(Clone, Debug)]
+enum Txt {
+    Plain(String),
+    Oversized,       // rejected by start_build
+    CommitOverflow,  // 'q' x 20000 -> 120000 bytes after rewriting: rejected by commit
+}
+impl Txt {
+    fn get(&self) -> String {
+        match self {
+            Txt::Plain(s) => s.clone(),
+            Txt::Oversized => "あ".repeat(BIG),
+            Txt::CommitOverflow => "q".repeat(20000),
+        }
+    }
+    fn coq(&self) -> String {
+        match self {
+            Txt::Plain(s) => ctext(s),
+            Txt::Oversized => format!("(repeat 12354%N (N.to_nat {}%N))", BIG),
+            Txt::CommitOverflow => "[]".to_string(),
+        }
+    }
+    fn json(&self) -> Value {
+        match self {
+            Txt::Plain(s) => json!(s),
+            Txt::Oversized => json!({"oversized": BIG}),
+            Txt::CommitOverflow => json!({"commit_overflow": 20000}),
+        }
+    }
+}
+
+/// (char begin, char end, byte begin, byte end, word id) of every node, from key lengths (dictionary words) and the
+/// modified-text surface kept in the word info (OOV); no access to the list's input buffer
+fn nodes_of(list: &MorphemeList<WD>, lx: &Lexica) -> Vec<(usize, usize, usize, usize, u32)> {
+    let mut v = vec![];
+    let (mut c, mut b) = (0usize, 0usize);
+    for m in list.iter() {
+        let w = m.word_id();
+        let key: String = if w.is_oov() { m.get_word_info().surface().to_string() } else { lx.get(w.dic() as usize, w.word()).key.clone() };
+        let (c2, b2) = (c + key.chars().count(), b + key.len());
+        v.push((c, c2, b, b2, w.as_raw()));
+        c = c2;
+        b = b2;
+    }
+    v
+}
+
+#[derive(Clone, Debug, PartialEq)]
+struct Field {
+    begin: usize,
+    end: usize,
+    begin_c: usize,
+    end_c: usize,
+    surface: String,
+    wid: u32,
+    dic: i32,
+    cost: i32,
+    requested: Vec<String>,
+}
+
+/// every accessor of every morpheme, restricted to the requested fields
+fn fields_of(list: &MorphemeList<WD>, req: InfoSubset) -> Vec<Field> {
+    list.iter()
+        .map(|m| {
+            let wi = m.get_word_info();
+            let mut r = vec![];
+            if req.contains(InfoSubset::SURFACE) {
+                r.push(format!("surface={}", wi.surface()));
+            }
+            if req.contains(InfoSubset::HEAD_WORD_LENGTH) {
+                r.push(format!("hwl={}", wi.head_word_length()));
+            }
+            if req.contains(InfoSubset::POS_ID) {
+                r.push(format!("pos={}/{:?}", m.part_of_speech_id(), m.part_of_speech()));
+            }
+            if req.contains(InfoSubset::NORMALIZED_FORM) {
+                r.push(format!("norm={}", m.normalized_form()));
+            }
+            if req.contains(InfoSubset::DIC_FORM_WORD_ID) {
+                r.push(format!("dicform_id={}", wi.dictionary_form_word_id()));
+            }
+            if req.contains(InfoSubset::READING_FORM) {
+                r.push(format!("reading={}", m.reading_form()));
+            }
+            if req.contains(InfoSubset::SPLIT_A) {
+                r.push(format!("a={:?}", wi.a_unit_split()));
+            }
+            if req.contains(InfoSubset::SPLIT_B) {
+                r.push(format!("b={:?}", wi.b_unit_split()));
+            }
+            if req.contains(InfoSubset::WORD_STRUCTURE) {
+                r.push(format!("ws={:?}", wi.word_structure()));
+            }
+            if req.contains(InfoSubset::SYNONYM_GROUP_ID) {
+                r.push(format!("syn={:?}", m.synonym_group_ids()));
+            }
+            Field { begin: m.begin(), end: m.end(), begin_c: m.begin_c(), end_c: m.end_c(), surface: m.surface().to_string(), wid: m.word_id().as_raw(), dic: m.dictionary_id(), cost: m.total_cost(), requested: r }
+        })
+        .collect()
+}
+
+type Ev = (u8, u8, Vec<(usize, usize, u32)>);
+
+struct Impl {
+    tok: StatefulTokenizer<WD>,
+    lists: Vec<MorphemeList<WD>>,
+    events: Vec<Ev>,
+}
+
+fn analyse(tok: &mut StatefulTokenizer<WD>, text: &str) -> u8 {
+    match catch(|| {
+        tok.reset().push_str(text);
+        tok.do_tokenize()
+    }) {
+        Ok(Ok(())) => 0,
+        Ok(Err(_)) => 1,
+        Err(_) => 2,
+    }
+}
+
+fn exec(im: &mut Impl, wd: &WD, lx: &Lexica, pool: &[Txt], op: &Op) {
+    match op {
+        Op::SetMode(m) => {
+            im.tok.set_mode(mode_of(*m));
+        }
+        Op::SetSubset(x) => {
+            im.tok.set_subset(InfoSubset::from_bits_truncate(*x));
+        }
+        Op::Analyse(t) => {
+            let f = analyse(&mut im.tok, &pool[*t].get());
+            if !matches!(pool[*t], Txt::CommitOverflow) {
+                im.events.push((0, f, vec![]));
+            }
+        }
+        Op::NewList => im.lists.push(MorphemeList::empty(wd.clone())),
+        Op::Collect(k) => {
+            let tok = &mut im.tok;
+            let l = &mut im.lists[*k];
+            match catch(|| l.collect_results(tok)) {
+                Ok(Ok(())) => {
+                    let n = nodes_of(&im.lists[*k], lx).iter().map(|x| (x.0, x.1, x.4)).collect();
+                    im.events.push((1, 0, n))
+                }
+                _ => im.events.push((1, 2, vec![])),
+            }
+        }
+        Op::SplitInto(m, src, i, out) => {
+            if src != out && *src < im.lists.len() && *out < im.lists.len() && *i < im.lists[*src].len() {
+                let (a, b) = if src < out {
+                    let (x, y) = im.lists.split_at_mut(*out);
+                    (&x[*src], &mut y[0])
+                } else {
+                    let (x, y) = im.lists.split_at_mut(*src);
+                    (&y[0], &mut x[*out])
+                };
+                let _ = catch(|| a.split_into(mode_of(*m), *i, b));
+            }
+        }
+        Op::Lookup(k, q, ss) => {
+            let l = &mut im.lists[*k];
+            let q = pool[*q].get();
+            let _ = catch(|| l.lookup(&q, InfoSubset::from_bits_truncate(*ss)));
+        }
+    }
+}
+
+fn cop(op: &Op, pool: &[Txt]) -> Option<String> {
+    Some(match op {
+        Op::SetMode(m) => format!("OSetMode {}", cmode(*m)),
+        Op::SetSubset(x) => format!("OSetSubset {}", cn(*x)),
+        Op::Analyse(t) => {
+            if matches!(pool[*t], Txt::CommitOverflow) {
+                return None;
+            }
+            format!("OAnalyse {}", pool[*t].coq())
+        }
+        Op::NewList => "ONewList".to_string(),
+        Op::Collect(k) => format!("OCollect {}%nat", k),
+        Op::SplitInto(m, s, i, o) => format!("OSplitInto {} {}%nat {}%nat {}%nat", cmode(*m), s, i, o),
+        Op::Lookup(k, q, ss) => {
+            if !matches!(pool[*q], Txt::Plain(_)) {
+                return None;
+            }
+            format!("OLookup {}%nat {} {}", k, pool[*q].coq(), cn(*ss))
+        }
+    })
+}
+
+fn cev(e: &Ev) -> String {
+    format!("({}, {}, {})", cn(e.0), cn(e.1), clist(e.2.iter().map(|x| format!("({}, {}, {})", cnu(x.0), cnu(x.1), cn(x.2)))))
+}
+
+/// table row of one text, recorded from fresh tokenizers over the dictionary without the failing plugin
+fn row(plain: &WD, lx: &Lexica, text: &str) -> Result<String, String> {
+    let node = |x: &(usize, usize, usize, usize, u32)| format!("Model.Split.mkNode {} {} {} {} {}", cnu(x.0), cnu(x.1), cnu(x.2), cnu(x.3), cn(x.4));
+    let mut paths = vec![];
+    let mut norm = "None".to_string();
+    for m in [Mode::C, Mode::A, Mode::B] {
+        let mut tok = StatefulTokenizer::new(plain.clone(), m);
+        tok.reset().push_str(text);
+        tok.do_tokenize().map_err(|e| format!("{}", e))?;
+        if m == Mode::C {
+            let inp = tok.verif_input();
+            let md = inp.current().to_string();
+            let m2o: Vec<usize> = (0..=md.len()).map(|i| inp.to_orig(i..i).start).collect();
+            if md != text || m2o.iter().enumerate().any(|(i, o)| i != *o) {
+                norm = format!("(Some ({}, {}))", ctext(&md), clist(m2o.iter().map(|x| cnu(*x))));
+            }
+        }
+        let mut l = MorphemeList::empty(plain.clone());
+        l.collect_results(&mut tok).map_err(|e| format!("{}", e))?;
+        paths.push(clist(nodes_of(&l, lx).iter().map(|x| format!("({})", node(x)))));
+    }
+    Ok(format!("mkRow {} {} false {} {} (Some {}) (Some {})", ctext(text), norm, cbool(text.contains('!')), paths[0], paths[1], paths[2]))
+}
+
+fn op_json(op: &Op) -> Value {
+    match op {
+        Op::SetMode(m) => json!(["set_mode", m]),
+        Op::SetSubset(x) => json!(["set_subset", x]),
+        Op::Analyse(t) => json!(["analyse", t]),
+        Op::NewList => json!(["new_list"]),
+        Op::Collect(k) => json!(["collect", k]),
+        Op::SplitInto(m, s, i, o) => json!(["split_into", m, s, i, o]),
+        Op::Lookup(k, q, ss) => json!(["lookup", k, q, ss]),
+    }
+}
+fn op_from(v: &Value) -> Op {
+    let n = |i: usize| v[i].as_u64().unwrap();
+    match v[0].as_str().unwrap() {
+        "set_mode" => Op::SetMode(n(1) as u8),
+        "set_subset" => Op::SetSubset(n(1) as u32),
+        "analyse" => Op::Analyse(n(1) as usize),
+        "new_list" => Op::NewList,
+        "collect" => Op::Collect(n(1) as usize),
+        "split_into" => Op::SplitInto(n(1) as u8, n(2) as usize, n(3) as usize, n(4) as usize),
+        _ => Op::Lookup(n(1) as usize, n(2) as usize, n(3) as u32),
+    }
+}
+
+fn gen_ops(rng: &mut Rng, pool: &[Txt]) -> Vec<Op> {
+    let mut ops = vec![Op::NewList];
+    let mut nlists = 1usize;
+    let n = 1 + rng.below(9) as usize;
+    let mut last_analyse = false;
+    for _ in 0..n {
+        let op = match rng.below(16) {
+            0..=1 => Op::SetMode(rng.below(3) as u8),
+            2 => Op::SetSubset(if rng.chance(1, 3) { 1023 } else { rng.below(1024) as u32 }),
+            3..=8 => Op::Analyse(rng.below(pool.len() as u64) as usize),
+            9 => {
+                nlists += 1;
+                Op::NewList
+            }
+            10..=12 if last_analyse => Op::Collect(rng.below(nlists as u64) as usize),
+            13 => Op::SplitInto(rng.below(2) as u8, rng.below(nlists as u64) as usize, rng.below(3) as usize, rng.below(nlists as u64) as usize),
+            14 => Op::Lookup(rng.below(nlists as u64) as usize, rng.below(pool.len() as u64) as usize, if rng.chance(1, 2) { 1023 } else { rng.below(1024) as u32 }),
+            _ => Op::Analyse(rng.below(pool.len() as u64) as usize),
+        };
+        // (the analysis that overflows in commit has no counterpart in the Coq run: nothing is collected right after it)
+        last_analyse = matches!(op, Op::Analyse(t) if !matches!(pool[t], Txt::CommitOverflow));
+        ops.push(op);
+    }
+    ops
+}
+
+struct World {
+    lx: Lexica,
+    sys_csv: String,
+    user_csvs: Vec<String>,
+    wd: WD,    // with the path rewrite plugin that fails on '!'
+    plain: WD, // without it (to record what the text analyses to)
+}
+
+fn world(lx: Lexica, cfg: &str) -> Result<World, String> {
+    let sys_csv = lx.csv(0);
+    let user_csvs: Vec<String> = (1..lx.ndics).map(|k| lx.csv(k)).collect();
+    let wd = Rc::new(WrapDict { inner: build_dict(&sys_csv, &user_csvs, cfg)?, prw: vec![Box::new(FailingRewrite)] });
+    let plain = Rc::new(WrapDict { inner: build_dict(&sys_csv, &user_csvs, cfg)?, prw: vec![] });
+    Ok(World { lx, sys_csv, user_csvs, wd, plain })
+}
+
+fn run_case(sink: &mut Sink, w: &World, pool: &[Txt], m0: u8, ops: &[Op], probe: usize, probe_list: usize, verbose: bool) {
+    let mut im = Impl { tok: StatefulTokenizer::new(w.wd.clone(), mode_of(m0)), lists: vec![], events: vec![] };
+    let mut all: Vec<Op> = ops.to_vec();
+    all.push(Op::Analyse(probe));
+    all.push(Op::Collect(probe_list));
+    let mut mode_now = m0;
+    for op in &all {
+        if let Op::SetMode(m) = op {
+            mode_now = *m;
+        }
+        exec(&mut im, &w.wd, &w.lx, pool, op);
+        if verbose {
+            println!("{:?} -> events so far {:?}", op, im.events.last());
+        }
+    }
+    let probe_text = pool[probe].get();
+    let hist_flag = im.events[im.events.len() - 2].1;
+    let hist_collect = im.events[im.events.len() - 1].clone();
+    let accum = im.lists[probe_list].subset();
+    // the same probe on a freshly created tokenizer with the same mode and field request
+    let mut ftok = StatefulTokenizer::new(w.wd.clone(), mode_of(mode_now));
+    ftok.set_subset(accum);
+    let fflag = analyse(&mut ftok, &probe_text);
+    let mut flist = MorphemeList::empty(w.wd.clone());
+    let fcollect: Ev = match catch(|| flist.collect_results(&mut ftok)) {
+        Ok(Ok(())) => (1, 0, nodes_of(&flist, &w.lx).iter().map(|x| (x.0, x.1, x.4)).collect()),
+        _ => (1, 2, vec![]),
+    };
+    let fresh_events: Vec<Ev> = vec![(0, fflag, vec![]), fcollect.clone()];
+    let mut bad: Option<String> = None;
+    if hist_flag != fflag {
+        bad = Some(format!("probe {:?}: outcome {} after the history, {} on a fresh tokenizer (0 Ok, 1 Err, 2 panic)", pool[probe].json(), hist_flag, fflag));
+    } else if hist_collect != fcollect {
+        bad = Some(format!("probe {:?}: collected {:?} after the history, {:?} on a fresh tokenizer", pool[probe].json(), hist_collect, fcollect));
+    } else if hist_flag == 0 && hist_collect.1 == 0 {
+        let req = accum;
+        match (catch(|| fields_of(&im.lists[probe_list], req)), catch(|| fields_of(&flist, req))) {
+            (Ok(a), Ok(b)) => {
+                if a != b {
+                    let k = a.iter().zip(b.iter()).position(|(x, y)| x != y).unwrap_or(0);
+                    bad = Some(format!("probe {:?}: morpheme {} differs in a requested field: {:?} after the history, {:?} on a fresh tokenizer", pool[probe].json(), k, a.get(k), b.get(k)));
+                }
+            }
+            (a, b) => {
+                if a.is_err() != b.is_err() {
+                    bad = Some(format!("probe {:?}: reading the fields panics only on one side (history: {:?}, fresh: {:?})", pool[probe].json(), a.err(), b.err()));
+                }
+            }
+        }
+    }
+    if verbose {
+        println!("history events: {:?}\nfresh probe   : {:?}\nfield request : {:?}", im.events, fresh_events, accum);
+        if hist_flag == 0 && hist_collect.1 == 0 {
+            println!("history fields: {:?}\nfresh fields  : {:?}", catch(|| fields_of(&im.lists[probe_list], accum)), catch(|| fields_of(&flist, accum)));
+        }
+    }
+    // table rows for every plain text that is analysed or looked up
+    let mut used: Vec<usize> = vec![];
+    for op in &all {
+        if let Op::Analyse(t) = op {
+            if matches!(pool[*t], Txt::Plain(_)) && !used.contains(t) {
+                used.push(*t);
+            }
+        }
+    }
+    let mut rows = vec![];
+    let mut table_err = None;
+    for t in &used {
+        match catch(|| row(&w.plain, &w.lx, &pool[*t].get())) {
+            Ok(Ok(r)) => rows.push(format!("({})", r)),
+            Ok(Err(e)) => table_err = Some(e),
+            Err(e) => table_err = Some(e),
+        }
+    }
+    let desc = json!({"kind": "c10", "system_csv": w.sys_csv, "user_csvs": w.user_csvs,
+        "lexica": w.lx.words.iter().map(|x| json!([x.dic, x.idx, x.key, x.cost, x.indexed, x.a, x.b])).collect::<Vec<_>>(),
+        "pool": pool.iter().map(|t| t.json()).collect::<Vec<_>>(), "initial_mode": m0,
+        "ops": ops.iter().map(op_json).collect::<Vec<_>>(), "probe": probe, "probe_list": probe_list});
+    let cops: Vec<String> = all.iter().filter_map(|o| cop(o, pool)).map(|s| format!("({})", s)).collect();
+    let term = format!("check_case {} {} {} {} {}", clist(rows), cmode(m0), clist(cops), clist(im.events.iter().map(cev)), clist(fresh_events.iter().map(cev)));
+    // histogram / non-triviality: the history contains at least one earlier analysis and the probe yields tokens
+    let n_an = ops.iter().filter(|o| matches!(o, Op::Analyse(_))).count();
+    let nontrivial = n_an >= 1 && !hist_collect.2.is_empty();
+    sink.tag(&format!("history_analyses={}", n_an.min(6)));
+    for op in ops {
+        sink.tag(match op {
+            Op::SetMode(_) => "op_set_mode",
+            Op::SetSubset(_) => "op_set_subset",
+            Op::Analyse(t) => match pool[*t] {
+                Txt::Oversized => "op_analyse_oversized(start_build)",
+                Txt::CommitOverflow => "op_analyse_oversized(commit)",
+                Txt::Plain(ref s) if s.is_empty() => "op_analyse_empty",
+                Txt::Plain(ref s) if s.contains('!') => "op_analyse_late_failure",
+                _ => "op_analyse",
+            },
+            Op::NewList => "op_new_list",
+            Op::Collect(_) => "op_collect",
+            Op::SplitInto(..) => "op_split_into",
+            Op::Lookup(..) => "op_lookup",
+        });
+    }
+    sink.tag(match hist_flag {
+        0 => "probe_ok",
+        1 => "probe_err",
+        _ => "probe_panic",
+    });
+    if ops.iter().any(|o| matches!(o, Op::Collect(k) if *k == probe_list)) {
+        sink.tag("probe_list_reused");
+    }
+    let id = if table_err.is_some() { sink.case_rust_only(desc, nontrivial) } else { sink.case(term, desc, nontrivial) };
+    if let Some(e) = table_err {
+        sink.fail(id, &format!("a fresh tokenizer fails on a pool text: {}", e), "");
+    }
+    if let Some(b) = bad {
+        sink.fail(id, &b, "");
+    }
+}
+
+fn gen_pool(rng: &mut Rng, lx: &Lexica) -> Vec<Txt> {
+    let mut pool = vec![Txt::Plain(String::new()), Txt::Oversized, Txt::CommitOverflow];
+    for _ in 0..5 {
+        pool.push(Txt::Plain(gen_text(rng, lx)));
+    }
+    // a long and a short one, and two on which the harness's path rewrite plugin fails after the lattice was resolved
+    let mut long = String::new();
+    for _ in 0..6 {
+        long.push_str(&gen_text(rng, lx));
+    }
+    pool.push(Txt::Plain(long));
+    pool.push(Txt::Plain(rng.pick(&ATOMS).to_string()));
+    pool.push(Txt::Plain(format!("{}!", gen_text(rng, lx))));
+    pool.push(Txt::Plain("!".to_string()));
+    pool
+}
+
+pub fn run(args: &Args) {
+    let mut sink = Sink::new("C10", &args.out, &["Model.TokState"], args.seed, &args.tier);
+    sink.shard_size = 60;
+    sink.rule("per generated dictionary (as in C09, with DefaultInputTextPlugin + length-changing rewrite.def and a path rewrite plugin that fails on '!'): a pool of texts (empty, short, long, oversized for start_build, oversized after rewriting, late-failing) and random sequences of 1..9 operations {set_mode, set_subset, analyse, new list, collect into a possibly reused list, split_into, lookup} on one StatefulTokenizer, then a probe (analyse + collect into a possibly reused list) compared in outcome, boundaries, word ids and every requested field with a fresh tokenizer of the same mode and field request; non-trivial = the history holds at least one analysis and the probe yields tokens");
+    let res = prepare_resources(&args.work);
+    let cfg = config_json(&res, "");
+    if let Some(p) = &args.replay {
+        let v: Value = serde_json::from_str(&std::fs::read_to_string(p).unwrap()).unwrap();
+        let c = &v["case"];
+        let mut lx = Lexica::default();
+        let units = |x: &Value| -> Vec<(usize, u32, bool)> { x.as_array().unwrap().iter().map(|u| (u[0].as_u64().unwrap() as usize, u[1].as_u64().unwrap() as u32, u[2].as_bool().unwrap())).collect() };
+        for x in c["lexica"].as_array().unwrap() {
+            lx.words.push(Word { dic: x[0].as_u64().unwrap() as usize, idx: x[1].as_u64().unwrap() as u32, key: x[2].as_str().unwrap().to_string(), cost: x[3].as_i64().unwrap() as i32, indexed: x[4].as_bool().unwrap(), a: units(&x[5]), b: units(&x[6]) });
+        }
+        lx.ndics = 1 + lx.words.iter().map(|w| w.dic).max().unwrap_or(0);
+        let w = world(lx, &cfg).expect("dictionary of the replayed case");
+        let pool: Vec<Txt> = c["pool"].as_array().unwrap().iter().map(|t| if let Some(s) = t.as_str() { Txt::Plain(s.to_string()) } else if t.get("oversized").is_some() { Txt::Oversized } else { Txt::CommitOverflow }).collect();
+        let ops: Vec<Op> = c["ops"].as_array().unwrap().iter().map(op_from).collect();
+        println!("pool: {:?}\ninitial mode: {}\nops: {:?}", c["pool"], c["initial_mode"], ops);
+        run_case(&mut sink, &w, &pool, c["initial_mode"].as_u64().unwrap() as u8, &ops, c["probe"].as_u64().unwrap() as usize, c["probe_list"].as_u64().unwrap() as usize, true);
+        sink.finish();
+        return;
+    }
+    let mut rng = Rng::new(args.seed);
+    let ndict = args.n(30, 400);
+    let per = args.n(30, 60);
+    for _ in 0..ndict {
+        let lx = gen_lexica(&mut rng, false);
+        let w = match catch(|| world(lx.clone(), &cfg)) {
+            Ok(Ok(w)) => w,
+            other => {
+                let id = sink.case_rust_only(json!({"kind": "c10-build", "system_csv": lx.csv(0)}), false);
+                sink.fail(id, &format!("generated dictionary was rejected: {:?}", other.err()), "");
+                continue;
+            }
+        };
+        let pool = gen_pool(&mut rng, &w.lx);
+        // directed histories first, then random ones
+        let directed: Vec<Vec<Op>> = vec![
+            vec![Op::NewList, Op::Analyse(8), Op::Collect(0)],                                  // longer, then the probe
+            vec![Op::NewList, Op::Analyse(1)],                                                  // rejected as too long
+            vec![Op::NewList, Op::Analyse(2)],                                                  // too long after rewriting
+            vec![Op::NewList, Op::Analyse(10)],                                                 // late failure
+            vec![Op::NewList, Op::Analyse(8), Op::Collect(0), Op::Analyse(0), Op::Collect(0)],  // longer, empty, same list
+            vec![Op::NewList, Op::SetSubset(4), Op::SetMode(0), Op::Analyse(8), Op::Collect(0), Op::Lookup(0, 9, 1023)],
+        ];
+        for (k, ops) in directed.iter().enumerate() {
+            let probe = if k == 3 { 0 } else { 3 + rng.below(5) as usize };
+            run_case(&mut sink, &w, &pool, rng.below(3) as u8, ops, probe, 0, false);
+            sink.tag("directed_history");
+        }
+        for _ in 0..per {
+            let ops = gen_ops(&mut rng, &pool);
+            let nlists = ops.iter().filter(|o| matches!(o, Op::NewList)).count();
+            let probe = if rng.chance(1, 10) { rng.below(2) as usize } else { 3 + rng.below((pool.len() - 3) as u64) as usize };
+            run_case(&mut sink, &w, &pool, rng.below(3) as u8, &ops, probe, rng.below(nlists as u64) as usize, false);
+        }
+    }
+    sink.finish();
 }
